@@ -93,6 +93,9 @@ func VC12_Linear_Quick() {
 func VC12_TwoBias_Quick() {
 	vc12(tNetCfg{nIn: 1, nBias: 2, nHid: 0, nOut: 1, atype: neatmath.LinearActivation})
 }
+func VC12_BiasFirst_Quick() {
+	vc12(tNetCfg{nIn: 2, nBias: 1, nHid: 0, nOut: 1, biasFirst: true, atype: neatmath.LinearActivation})
+}
 func VC12_NoBias_Quick() {
 	vc12(tNetCfg{nIn: 2, nBias: 0, nHid: 1, nOut: 1, atype: neatmath.LinearActivation})
 }
